@@ -72,6 +72,14 @@ CLAIMED = {
     text='State machine with provenance (Model/VarioSM.v): settings, caches stamped with the projection of the settings they were computed from, every setter with exactly the resets the code performs, lazy getters. Theorem (all finite sequences of assignments interleaved with reads, any start configuration, isotropic and directional): the invariant "every cache is empty or stamped with the current settings" is established by every read and preserved by every admissible setter, hence every read equals that of a fresh instance; the one excluded setter (use_nugget while coefficients are cached, finding F5) is proved to be a real counterexample (C06_use_nugget_refuted). Tie: the extracted model predicts, for every read of a history, the current settings and a validity bit; the harness runs the history on a real Variogram / DirectionalVariogram (dense shared MetricSpace, raw coordinates with truncated distances, elongated directional data) and compares with a fresh instance built from the predicted settings; exhaustive single assignments x all reads, ordered pairs, random histories to length 8 (12); failing histories are shrunk.',
     note='Equal settings give equal numbers only if curve_fit / KMeans are deterministic (trusted). Not modelled: fit_method=\'manual\' (no fresh equivalent without parameters), harmonize, normalize. Findings: F5 known (pinned by the suite); F6, F7, F8, F19, F20, F21, F22 fixed.',
     technique='Coq proof (invariant over a provenance state machine) + history-based correspondence with shrinking', ref='3 C06'),
+ 'C04': dict(
+    text='Theorems (any number of parameters k, any coefficient values): for automatic fits the coefficient vector, `parameters` and the argument list rebuilt from describe() (what kriging and fitted_model_function(**describe()) use) all denote the same (range, sill, [shape]) and the same nugget (0 when disabled); for manual fits the same holds provided the nugget slot is 0 whenever use_nugget is off - and without that proviso the views provably disagree (C04_manual_nugget_mismatch_refuted = defect F2, fixed). Sums of models: slices by C03b. Tie: every configuration is fitted by the implementation; fitted_model, transform, data, the rebuilt model, OrdinaryKriging.gamma_model, VariogramEstimator.predict and the model called with `parameters` are evaluated at 18 lags incl. 0 and must coincide; parameters / kriging arguments against the extracted model; metrics against their documented definitions.',
+    note='The optimiser result enters as the coefficient vector the implementation produced. Findings F2, F3 fixed.',
+    technique='Coq proof over lists (data movement) + multi-view differential oracle', ref='3 C04'),
+ 'C05': dict(
+    text='Theorems about the assembly of the least-squares problem (all lengths): lags, semivariances and weights handed to the optimiser are the same NaN-filtered positions (aligned triples); an empty lag class neither changes lags, semivariances nor weights (deleting it beforehand gives the same problem); the documented box (range <= largest edge, sill <= largest semivariance, shape <= 2/20, nugget <= 0.99 max); the wrapped model appends nugget 0. Tie: the (xdata, ydata, sigma, p0, bounds) of the recorded curve_fit call against the extracted model.',
+    note='PARTIAL: that curve_fit returns a local minimiser inside the box and never ends worse than the initial guess is behaviour of SciPy: TESTED (box membership, objective vs initial guess, re-optimisation with tolerances 1e-12, insertion of an always-empty class), not proved. lm is covered only where it converges. Known findings F23 (stable: division by the shape bound 0) and F24 (weighted multi-parameter fits stop before a local minimum); F4 fixed.',
+    technique='Coq proof over lists (problem assembly) + recorded-fit-call correspondence + re-optimisation test', ref='3 C05'),
 }
 
 PENDING_REASON = 'check not built yet in this round (work in progress; the property is within reach of the technique, see DESIGN.md section 3)'
